@@ -35,11 +35,12 @@ LIB = [
     (('rule', 'Tcap2', ['p', 'q'], ('call', 'Tpair', [('seq', [('ref', 'p'), ('opt', ('ref', 'q'))])], [])), ['p', 'p']),
     (('rule', 'Tcap3', ['p', 'x'], ('call', 'Tpair', [('call', 'Tkw', [('ref', 'p'), ('ref', 'x')], [])], [])), ['p', 'v']),
     (('class', 'CP', ['p', 'n'], [('field', 'first', ('ref', 'p')), ('field', 'rest', ('rep', ('lit', 'b'), None, 'n'))]), ['p', 'i']),
+    (('class', 'CN', ['n'], [('field', 'items', ('rep', ('lit', 'a'), 'n', 'n')), ('field', 'n2', ('py', 'n * 2'))]), ['i']),
     (('class', 'CV', ['x'], [('field', 'w', ('ref', 'W')), ('requires', None, ('py', 'w != x')), ('field', 'tag', ('py', 'x'))]), ['s']),
 ]
 LIB_NULL = {'Tsame': False, 'Tlen': False, 'Tcount': True, 'Tpair': True, 'Tval': True, 'Tsep': True,
             'Tkw': True, 'Trec': True, 'Tpass': True, 'Topt': True, 'CP': True, 'CV': False, 'Tcap2': True,
-            'Tcap3': True}
+            'Tcap3': True, 'CN': True}
 
 NAMES = ['x', 'y', 'z', 'n', 'm', 'k']
 
